@@ -813,6 +813,19 @@ func c1Strict2(p c1prog, texts []string, cls string, found map[string]bool) (boo
 			return true, "", c1clsEF
 		}
 	}
+	if cls == "top-unified-with-struct-holding-failing-comprehension" {
+		// the struct with the failing comprehension may be reached through an embedding
+		// (`#A: {if false {}}; y: {#A}` vs `_ & {#A}`)
+		sh := c1Shapes(p, texts)
+		if sh["C"] && len(sh) == 2 && sh["E"] {
+			for c := range found {
+				if c != cls && !c1neutral[c] {
+					return false, "differences of two classes: " + cls + " and " + c, cls
+				}
+			}
+			return true, "", cls
+		}
+	}
 	ok, why := c1strict1(p, texts, cls, found)
 	return ok, why, cls
 }
@@ -958,11 +971,27 @@ func c1hasSiblingRefConj(src string) bool {
 
 // c1hasMaybeEmptyComprehension: a comprehension that may yield nothing: an `if` clause, or a
 // `for` over anything but a non-empty literal.
+func c1isTrue(e ast.Expr) bool {
+	switch x := c1unparen(e).(type) {
+	case *ast.Ident:
+		return x.Name == "true"
+	case *ast.BasicLit:
+		return x.Value == "true"
+	}
+	return false
+}
+
 func c1hasMaybeEmptyComprehension(src string) bool {
+	return c1countMaybeEmpty(src) > 0
+}
+
+// c1countMaybeEmpty counts the clauses that may make a comprehension yield nothing.
+func c1countMaybeEmpty(src string) int {
 	f, err := c1parse(src)
 	if err != nil {
-		return false
+		return 0
 	}
+	count := 0
 	found := false
 	inList := map[ast.Node]bool{}
 	ast.Walk(f, func(n ast.Node) bool {
@@ -975,7 +1004,7 @@ func c1hasMaybeEmptyComprehension(src string) bool {
 			for _, cl := range c.Clauses {
 				switch cl := cl.(type) {
 				case *ast.IfClause:
-					if id, ok := cl.Condition.(*ast.Ident); !ok || id.Name != "true" {
+					if !c1isTrue(cl.Condition) {
 						found = true
 					}
 				case *ast.ForClause:
@@ -994,9 +1023,13 @@ func c1hasMaybeEmptyComprehension(src string) bool {
 				}
 			}
 		}
-		return !found
+		if found {
+			count++
+			found = false
+		}
+		return true
 	}, nil)
-	return found
+	return count
 }
 
 // c1hasEmbeddedRef: some embedding (possibly through & and parentheses, or inside a
@@ -1007,6 +1040,15 @@ func c1hasEmbeddedRef(src string) bool {
 		return false
 	}
 	found := false
+	labelIdents := map[*ast.Ident]bool{}
+	ast.Walk(f, func(n ast.Node) bool {
+		if fd, ok := n.(*ast.Field); ok {
+			if id, ok := fd.Label.(*ast.Ident); ok {
+				labelIdents[id] = true
+			}
+		}
+		return true
+	}, nil)
 	var operand func(e ast.Expr)
 	operand = func(e ast.Expr) {
 		switch x := e.(type) {
@@ -1029,6 +1071,22 @@ func c1hasEmbeddedRef(src string) bool {
 					operand(d.Expr)
 				}
 			}
+			// … or with a definition reference / close() call anywhere inside
+			ast.Walk(x, func(m ast.Node) bool {
+				switch y := m.(type) {
+				case *ast.Ident:
+					if strings.HasPrefix(y.Name, "#") || strings.HasPrefix(y.Name, "_#") {
+						if _, isLabel := labelIdents[y]; !isLabel {
+							found = true
+						}
+					}
+				case *ast.CallExpr:
+					if id, ok := y.Fun.(*ast.Ident); ok && id.Name == "close" {
+						found = true
+					}
+				}
+				return !found
+			}, nil)
 		case *ast.ParenExpr:
 			operand(x.X)
 		case *ast.BinaryExpr:
@@ -1197,7 +1255,7 @@ func c1Slots(c *Cfg, repo string, r *Rng) []c1slot {
 	for _, p := range c1Corpus(repo) {
 		slots = append(slots, c1slot{prog: p})
 	}
-	nGen := c.Pick(1300, 8000)
+	nGen := c.Pick(1200, 6000)
 	nMarks := c.Pick(200, 1000)
 	if c.Focus {
 		nGen, nMarks = c.Pick(5000, 16000), 0
@@ -1207,7 +1265,7 @@ func c1Slots(c *Cfg, repo string, r *Rng) []c1slot {
 		slots = append(slots, c1slot{prog: c1prog{name: fmt.Sprintf("gen#%d", i), stream: "gen"}, gen: gr.Sub(), depth: 2 + i%2})
 	}
 	rr := r.Sub()
-	for i := 0; i < c.Pick(300, 3000); i++ {
+	for i := 0; i < c.Pick(300, 1500); i++ {
 		slots = append(slots, c1slot{prog: c1prog{name: fmt.Sprintf("refs#%d", i), stream: "refs"}, gen: rr.Sub(), refs: true})
 	}
 	mr := r.Sub()
@@ -1251,7 +1309,20 @@ func c1Worker(c *Cfg, w, n, start int) {
 		sl := slots[i]
 		x.idx = i
 		if sl.refs {
-			sl.prog.src = (&c1refgen{r: sl.gen.Sub()}).Program()
+			// error-free programs only (references INTO erroneous structs are the
+			// error-placement findings; they would drown the stream)
+			okProg := false
+			for try := 0; try < 10 && !okProg; try++ {
+				sl.prog.src = (&c1refgen{r: sl.gen.Sub()}).Program()
+				x.note(i, sl.prog.name, []string{sl.prog.src})
+				if res := c1Eval([]string{sl.prog.src}); res.info != nil && res.info.nErr == 0 {
+					okProg = true
+				}
+			}
+			if !okProg {
+				c.Count("refs:dropped-erroneous")
+				continue
+			}
 		} else if sl.gen != nil {
 			// mostly valid programs: an erroneous draw is redrawn (up to 5 times) 3 times
 			// out of 4
